@@ -35,6 +35,7 @@ fn main() {
         "C08-direct" => vcore::props::c07::run_c08_direct(&args, &mut rep),
         "C08-scalars" => vcore::props::c07::run_c08_scalars(&args, &mut rep),
         "C08-random" => vcore::props::c07::run_c08_random(&args, &mut rep),
+        w if w.ends_with("-huge") => vcore::props::sessions::run_huge(&w[..3].to_string(), &args, &mut rep),
         w if w.ends_with("-large") => vcore::props::sessions::run_large(&w[..3].to_string(), &args, &mut rep),
         w if w.ends_with("-sclosure") => vcore::props::sclosure::run(&w[..3].to_string(), &args, &mut rep),
         "C05-closure" => vcore::props::closure::run_c05_component(&args, &mut rep),
